@@ -60,6 +60,14 @@ def rshape_d(rng):
         a, b = rpoly(rng, rng.choice([3, 4])), rpoly(rng, rng.choice([3, 4]))
         join = a[-1] if rng.random() < 0.7 else a[0]
         return poly_d(a, close=False) + " " + poly_d([join] + b[1:], close=rng.random() < 0.3)
+    if k < 0.15:
+        # a curve segment that returns to its own start point in the middle of a contour: a lobe with area, not a
+        # zero-length segment
+        x, y, a = round(rng.uniform(2, 8), 1), round(rng.uniform(6, 12), 1), round(rng.uniform(4, 8), 1)
+        b = round(a * rng.uniform(0.5, 0.9), 1)
+        lobe = rng.choice(["C%s,%s %s,%s %s,%s" % (x + a + b, y - b, x + a + b, y + b, x + a, y),
+                           "Q%s,%s %s,%s Q%s,%s %s,%s" % (x + a + b, y - b, x + a + b, y, x + a + b, y + b, x + a, y)])
+        return "M%s,%s L%s,%s %s L%s,%s L%s,%s Z" % (x, y, x + a, y, lobe, x + a, y + a, x, y + a)
     if k < 0.25:
         return poly_d(rpoly(rng))
     if k < 0.4:
